@@ -758,7 +758,8 @@ HXPwrite(accrec_t *access_rec, int32 length, const void *data)
 
             if (OPENERR(f) || HI_SEEK(f, access_rec->posn + info->extern_offset) == FAIL ||
                 HI_WRITE(f, data, length) == FAIL) {
-                HI_CLOSE(f);
+                if (!OPENERR(f)) /* nothing to close when the re-open itself failed */
+                    HI_CLOSE(f);
                 HGOTO_ERROR(DFE_DENIED, FAIL);
             }
             HI_CLOSE(info->file_external);
